@@ -512,6 +512,21 @@ func ruleKeyImmutable(c *Ctx) {
 							if cv, ok := r.(*ssa.Convert); ok {
 								add(cv)
 							}
+							// captured by a function literal: the reads of the captured variable inside it
+							if mc, ok := r.(*ssa.MakeClosure); ok {
+								if lit, ok := mc.Fn.(*ssa.Function); ok {
+									for j, bind := range mc.Bindings {
+										if bind != ssa.Value(al) || j >= len(lit.FreeVars) {
+											continue
+										}
+										for _, fr := range *lit.FreeVars[j].Referrers() {
+											if ld, ok := fr.(*ssa.UnOp); ok {
+												add(ld)
+											}
+										}
+									}
+								}
+							}
 						}
 					}
 				}
@@ -601,6 +616,46 @@ func ruleUnsafeConfined(c *Ctx) {
 	c.check(len(bad) == 0, "unsafe-confined", "pike", "cache/cache.go", fmt.Sprintf("%d unsafe conversions, all inside byteSliceToString / MemHash*", n), strings.Join(bad, " || "), n)
 }
 
+// closuresForParam: cc calls a func-typed parameter of its enclosing function; the result is the function
+// literals passed for that parameter at every pike call site of the enclosing function (nil unless all are literals).
+func closuresForParam(p *Program, cc *ssa.CallCommon) []*ssa.Function {
+	prm, ok := cc.Value.(*ssa.Parameter)
+	if !ok || cc.IsInvoke() {
+		return nil
+	}
+	h := prm.Parent()
+	idx := -1
+	for i, q := range h.Params {
+		if q == prm {
+			idx = i
+		}
+	}
+	if idx < 0 {
+		return nil
+	}
+	var out []*ssa.Function
+	for _, f := range p.allFuncs {
+		for _, b := range f.Blocks {
+			for _, in := range b.Instrs {
+				ci, ok := in.(ssa.CallInstruction)
+				if !ok || ci.Common().StaticCallee() != h || idx >= len(ci.Common().Args) {
+					continue
+				}
+				mc, ok := ci.Common().Args[idx].(*ssa.MakeClosure)
+				if !ok {
+					return nil
+				}
+				lit, ok := mc.Fn.(*ssa.Function)
+				if !ok {
+					return nil
+				}
+				out = append(out, lit)
+			}
+		}
+	}
+	return out
+}
+
 // ruleStoreKeys: each Store back end addresses its record by the whole key.
 func ruleStoreKeys(c *Ctx) {
 	iface := c.P.NamedType("store", "Store")
@@ -688,7 +743,16 @@ func ruleStoreKeys(c *Ctx) {
 						}
 					case ssa.CallInstruction:
 						cc := x.Common()
-						if sc := cc.StaticCallee(); sc != nil && sc.Blocks != nil && isPikeFunc(sc) {
+						if lits := closuresForParam(c.P, cc); len(lits) > 0 {
+							// a call of a func-typed parameter (withKey(key, func(ctx, k) …)): the literals handed in
+							for _, lit := range lits {
+								for ai, a := range cc.Args {
+									if a == v && ai < len(lit.Params) {
+										follow(lit.Params[ai], depth+1)
+									}
+								}
+							}
+						} else if sc := cc.StaticCallee(); sc != nil && sc.Blocks != nil && isPikeFunc(sc) {
 							for ai, a := range cc.Args {
 								if a == v && ai < len(sc.Params) {
 									follow(sc.Params[ai], depth+1)
@@ -1236,6 +1300,9 @@ func rulePurge(c *Ctx, a *cacheAnchors) {
 				if !isKeyString(e.Args[1], key) {
 					bad = append(bad, "the LRU entry removed is "+prettyTerm(e.Args[1])+", not the whole key, on "+where)
 				}
+			case e.Kind == "call" && e.Callee != nil && e.Callee.Signature.Recv() != nil && strings.HasSuffix(e.Callee.Signature.Recv().Type().String(), "cache.httpCache") && e.Callee.Object() != nil && e.Callee.Object().Exported():
+				// the entry's exported methods take the entry lock, which a completing fetch holds across store I/O
+				bad = append(bad, "the purge calls "+funcName(e.Callee)+" on the entry: it takes the entry lock and so waits for an in-flight fetch's completion (and its store write) while holding the shard lock on "+where)
 			case e.Kind == "invoke" && e.Method != nil && e.Method.Name() == "Delete":
 				deleted = true
 				if !locked {
@@ -1270,6 +1337,42 @@ func rulePurge(c *Ctx, a *cacheAnchors) {
 }
 
 // rulePurgeAll: the unnamed purge visits every cache.
+// everyArgPurges: every call of helper h in pike passes a function literal that calls RemoveHTTPCache.
+func everyArgPurges(p *Program, h *ssa.Function) bool {
+	sites := 0
+	for _, f := range p.allFuncs {
+		for _, b := range f.Blocks {
+			for _, in := range b.Instrs {
+				ci, ok := in.(ssa.CallInstruction)
+				if !ok || ci.Common().StaticCallee() != h {
+					continue
+				}
+				sites++
+				okSite := false
+				for _, a := range ci.Common().Args {
+					if mc, ok := a.(*ssa.MakeClosure); ok {
+						if lit, ok := mc.Fn.(*ssa.Function); ok {
+							for _, bb := range lit.Blocks {
+								for _, i2 := range bb.Instrs {
+									if c2, ok := i2.(ssa.CallInstruction); ok {
+										if sc := c2.Common().StaticCallee(); sc != nil && sc.Name() == "RemoveHTTPCache" {
+											okSite = true
+										}
+									}
+								}
+							}
+						}
+					}
+				}
+				if !okSite {
+					return false
+				}
+			}
+		}
+	}
+	return sites > 0
+}
+
 func rulePurgeAll(c *Ctx) {
 	fn := c.P.Method("cache", "dispatchers", "RemoveHTTPCache")
 	if fn == nil {
@@ -1338,6 +1441,10 @@ func rulePurgeAll(c *Ctx) {
 			called := false
 			for _, e := range pr.Events {
 				if e.Kind == "call" && e.Callee != nil && e.Callee.Name() == "RemoveHTTPCache" {
+					called = true
+				}
+				// an iteration helper (each(fn)): the function it is given must do the purge at every use
+				if e.Kind == "dyncall" && an.Parent() != nil && an.Parent() != fn && everyArgPurges(c.P, an.Parent()) {
 					called = true
 				}
 			}
